@@ -98,9 +98,8 @@ def u_b_phenotype(ctx):
                 self.draws.append(dict(mean=mean, cov=cov, size=size, out=out))
                 return out
 
-        class Me:
-            pass
-        me = Me()
+        from pybrops.breed.prot.pt.G_E_Phenotyping import G_E_Phenotyping as _Real
+        me = loopcut.stub_of(_Real)
         me.gpmod, me.rng = GP(), Rng()
         me.nenv = nenv
         me.nrep = numpy.array(nreps, dtype="int64")
